@@ -230,6 +230,10 @@ def replay(pid, payload, seed):
     if payload.get("engine") == "orderstress":
         out = eng_orderstress(Ctx(pid, "quick", seed, {"evaluations": 0, "distinct": set(), "samples": [], "streams": {}, "traces": 0}))
         return out[0] if out else None
+    if payload.get("engine") in ("topicstress", "deletestress", "pushstress"):
+        fn = {"topicstress": eng_topicstress, "deletestress": eng_deletestress, "pushstress": eng_pushstress}[payload["engine"]]
+        out = fn(Ctx(pid, "quick", seed, {"evaluations": 0, "distinct": set(), "samples": [], "streams": {}, "traces": 0}))
+        return out[0] if out else None
     if payload.get("engine") == "racestress":
         out = eng_racestress(Ctx(pid, "quick", seed, {"evaluations": 0, "distinct": set(), "samples": [], "streams": {}, "traces": 0}))
         return out[0] if out else None
@@ -256,7 +260,7 @@ def replay(pid, payload, seed):
 
 # ================================================================= engines
 
-NAME_ALPHABET = ["p", "s", "/", "-", "é"]
+NAME_ALPHABET = ["p", "s", "/", "-", "é", "P"]
 
 
 def strings_upto(alpha, n):
@@ -285,7 +289,7 @@ def eng_names_pure(ctx):
             [gen.sname("p", i) for i in gen.ODD_VALID_IDS]:
         ops.append("TN " + hx(s))
         ops.append("SN " + hx(s))
-    chars = list("ps/-é0t") + ["topics", "subscriptions", "projects", "/topics/", "/subscriptions/", "projects/"]
+    chars = list("ps/-é0tPTÉ") + ["topics", "subscriptions", "projects", "/topics/", "/subscriptions/", "projects/"]
     for _ in range(ctx.n(3000, 50000)):
         s = "".join(rng.choice(chars) for _ in range(rng.randrange(0, 9)))
         if rng.random() < 0.7:
@@ -304,7 +308,13 @@ def eng_names_echo(ctx):
     for i in range(ctx.n(60, 600)):
         ops = ["SEED %d" % i]
         a, b = rng.choice(ids), rng.choice(ids)
-        pa, pb = rng.choice(["p", "q2", "é"]), rng.choice(["p", "q2"])
+        pa, pb = rng.choice(["p", "q2", "é", "P", "Q2"]), rng.choice(["p", "q2", "P", "É"])
+        if i % 3 == 0:
+            # two names that differ only in the case of one part
+            a = b = rng.choice(["t", "u1", "T"])
+            pa, pb = rng.choice([("p", "P"), ("q2", "Q2"), ("é", "É"), ("p", "p")])
+            if pa == pb:
+                a, b = "tt", "tT"
         ta, tb = gen.tname(pa, a), gen.tname(pb, b)
         bad = rng.choice(gen.MALFORMED_NAMES)
         ops += ["CT " + hx(ta), "CT " + hx(tb), "CT " + hx(bad), "GT " + hx(ta), "GT " + hx(tb),
@@ -400,6 +410,9 @@ def eng_deadline_probes(mods, mon, tag):
         cases = seeded(gen.deadline_probe_cases(phases, ackdls=(0, 5, 11, 700) if not ctx.thorough else (0, 1, 5, 9, 10, 11, 15, 600, 700, 3600),
                                                 mods=mods, prefix=tag,
                                                 gaps=(40, 70) if not ctx.thorough else (10, 40, 70, 95)))
+        # the same probes with a Publish arriving just before each of them (requests of another kind must not move a deadline)
+        cases += seeded(gen.deadline_probe_cases(phases[::3] if not ctx.thorough else phases, ackdls=(0, 11) if not ctx.thorough else (0, 5, 11, 700),
+                                                 mods=mods[:2], prefix=tag, gaps=(40,), pub_probe=True))
         cases = [(c, gen.with_drain(o)) for c, o in cases]
 
         def mon2(ops, lines):
@@ -487,7 +500,7 @@ def eng_paging_pure(ctx):
             for off in ["-", "0", "1", str(cnt - 1 if cnt else 0), str(cnt), str(cnt + 1), str(2 ** 64 - 1)]:
                 ops.append("PP %d %d %s" % (cnt, size, off))
     ops = list(dict.fromkeys(ops))
-    return ctx.pure("paging-pure", ops)
+    return ctx.pure("paging-pure", ops, monitor=M.mon_paging_pure)
 
 
 def eng_paging_walks(ctx):
@@ -626,6 +639,58 @@ def eng_pushstress(ctx):
     return []
 
 
+def eng_topicstress(ctx):
+    """OS threads creating topics at the same instant (barrier), then one Publish per topic: message ids must be
+    pairwise distinct and each subscription must receive its own topic's message.  A stress search: it can only find."""
+    rounds = ctx.n(100, 2000)
+    p = sh([HARNESS, "topicstress", str(rounds), "8"], check=False, timeout=3000)
+    m = re.search(r"TOPICSTRESS rounds=(\d+) topics=(\d+) duplicate_ids=(\d+) wrong_delivery=(\d+)", p.stdout or "")
+    st = ctx.stats
+    st["evaluations"] += int(m.group(2)) if m else 0
+    st["streams"]["topicstress"] = {"cases": int(m.group(2)) if m else None, "duplicate_ids": int(m.group(3)) if m else None,
+                                    "wrong_delivery": int(m.group(4)) if m else None}
+    if not m:
+        return [("engine", "topicstress did not finish", {"output": (p.stdout or "")[-2000:], "signature": "engine:topicstress"})]
+    st["distinct"].add("topicstress")
+    if int(m.group(3)) or int(m.group(4)):
+        why = ("C09-id-reused: with topics created concurrently from %d threads, %s message ids were returned for messages of "
+               "two different topics and %s subscriptions did not receive the id their Publish returned (of %s topics)"
+               % (8, m.group(3), m.group(4), m.group(2)))
+        return [("violation", "topicstress: " + why,
+                 {"engine": "topicstress", "failing_input_found": True, "monitor": why, "signature": "monitor:C09-id-reused",
+                  "replay_cmd": ".cache/target/release/harness topicstress %d 8" % rounds, "output": (p.stdout or "")[-2000:],
+                  "broken": "stress search on the implementation (OS threads)"})]
+    return []
+
+
+def eng_deletestress(ctx):
+    """Closed-loop publishers on one topic and a DeleteSubscription in their midst (current-thread runtime): the number
+    of Publish calls that complete before the deletion returns is bounded by what was queued ahead of it."""
+    out = []
+    for pubs in ((24, 40) if not ctx.thorough else (17, 24, 40, 96)):
+        rounds = ctx.n(20, 200)
+        p = sh([HARNESS, "deletestress", str(rounds), str(pubs)], check=False, timeout=3000)
+        m = re.search(r"DELETESTRESS rounds=(\d+) publishers=(\d+) max_overtaken=(\d+) bound=(\d+) unfinished=(\d+)", p.stdout or "")
+        st = ctx.stats
+        st["evaluations"] += rounds
+        s = st["streams"].setdefault("deletestress", {"cases": 0, "max_overtaken": 0})
+        s["cases"] += rounds
+        if not m:
+            return [("engine", "deletestress did not finish", {"output": (p.stdout or "")[-2000:], "signature": "engine:deletestress"})]
+        s["max_overtaken"] = max(s["max_overtaken"], int(m.group(3)))
+        st["distinct"].add("deletestress-%d" % pubs)
+        if int(m.group(3)) > int(m.group(4)) or int(m.group(5)):
+            why = ("C07-delete-starved: with %s closed-loop publishers on the topic, a DeleteSubscription returned only after "
+                   "%s further Publish calls had completed (bound for what can be queued ahead of it: %s); %s deletions had "
+                   "not returned when every publisher was done" % (m.group(2), m.group(3), m.group(4), m.group(5)))
+            out.append(("violation", "deletestress: " + why,
+                        {"engine": "deletestress", "failing_input_found": True, "monitor": why, "signature": "monitor:C07-delete-starved",
+                         "replay_cmd": ".cache/target/release/harness deletestress %d %d" % (rounds, pubs),
+                         "output": (p.stdout or "")[-2000:], "broken": "stress search on the implementation (deterministic scheduling)"}))
+            break
+    return out
+
+
 def eng_modify_batches(ctx):
     cases = gen.modify_batch_cases()
     if not ctx.thorough:
@@ -656,7 +721,20 @@ def eng_id_lists(mon, kinds):
     return eng
 
 
-reg("C02", [eng_id_lists(M.mon_ack_final, ("ack", "sack", "sackmod")), eng_data_enum(M.mon_ack_final, {"ACK"}),
+def eng_subset_lists(mon, kinds):
+    """One request naming every ordered subset of 1..3 of four live deliveries (one batch, or two batches 40 ms apart),
+    then both deadlines and a drain."""
+    def eng(ctx):
+        cases = [(c, gen.with_drain(o)) for c, o in gen.subset_list_cases() if c.split("-")[1] in kinds]
+
+        def mon2(ops, lines):
+            return mon(ops, lines) or M.mon_fanout(ops, lines)
+        return ctx.seq("subset-lists", cases, relevant=DATA_OPS, triggers={"ACK", "MOD", "SS", "SR"}, monitor=mon2)
+    eng.__name__ = "eng_subset_lists"
+    return eng
+
+
+reg("C02", [eng_id_lists(M.mon_ack_final, ("ack", "sack", "sackmod")), eng_subset_lists(M.mon_ack_final, ("ack", "sack")), eng_data_enum(M.mon_ack_final, {"ACK"}),
             eng_data_random(M.mon_ack_final, {"ACK"}, streams=True, tag="data-stream-random"),
             eng_stream_enum(M.mon_ack_final), eng_big_ack],
     rule="id-lists: Acknowledge (unary and streaming) with every id list of length 1..3 over {stale, live, live, unknown, "
@@ -704,7 +782,7 @@ reg("C04", [eng_deadline_pure, eng_deadline_probes((None,), M.mon_deadline, "dea
                "has fired by the first 1 ms tick at/after the deadline and then nothing overdue stays leased. " + SEQ_NOTE,
     level_note="Timer behaviour (1 ms ticks, firing order) is tokio's, assumed as modelled; validated by the probe stream.")
 
-reg("C05", [eng_id_lists(M.mon_deadline, ("nack", "mod")), eng_deadline_pure, eng_deadline_probes((0, 1, 5, 30, 599, 600, 700, -1), M.mon_deadline, "modify-probes"),
+reg("C05", [eng_id_lists(M.mon_deadline, ("nack", "mod")), eng_subset_lists(M.mon_deadline, ("nack", "mod")), eng_deadline_pure, eng_deadline_probes((0, 1, 5, 30, 599, 600, 700, -1), M.mon_deadline, "modify-probes"),
             eng_data_random(M.mon_deadline, {"MOD"}, streams=True, tag="data-stream-random"),
             eng_data_enum(M.mon_deadline, {"MOD"}), eng_modify_batches, eng_stream_enum(M.mon_deadline)],
     rule="DX: parse of every boundary i32 and random values; modify-probes: a lease modified with N in "
@@ -724,7 +802,7 @@ def eng_push_late(ctx):
 
 
 reg("C09", [eng_codec_pure, eng_payload, eng_data_random(M.mon_payload, {"PULL"}, streams=True, tag="data-stream-random"),
-            eng_push_late],
+            eng_push_late, lambda ctx: eng_topicstress(ctx)],
     rule="codec-pure: MessageId::new on boundary and random (tid, counter) pairs; payload: binary/empty/5 kB data, "
          "non-ASCII and empty attribute keys, two subscriptions, nack and expiry redelivery, topic delete + re-create; "
          "push: the HTTP push body (base64 data incl. bytes that map to the base64 digits 62/63, attributes, id) as "
@@ -796,7 +874,7 @@ def eng_cs_late(ctx):
 
 
 reg("C15", [eng_capacity, eng_data_random(M.mon_batch, {"PULL"}, streams=True, tag="data-stream-random"), eng_cs_late,
-            lambda ctx: eng_big_chain(ctx)],
+            lambda ctx: eng_big_chain(ctx), lambda ctx: eng_boundary_counts(ctx)],
     rule="capacity: backlog sizes around 0/1/1000 (thorough: 65535/65536/65541) x max_messages around 1, 1000, 65535, "
          "65536 multiples, i32::MAX; stream-capacity likewise for max_outstanding_messages. non-trivial = non-empty response",
     monitor=M.mon_batch, title="Pull batches respect their size limit and are empty only when allowed", design_ref="7/C15",
@@ -808,7 +886,7 @@ reg("C15", [eng_capacity, eng_data_random(M.mon_batch, {"PULL"}, streams=True, t
                "(C15c_*: only through its 300 s limit; an empty reply of the actor makes the consumer wait) and in the "
                "sequential model (WaitP); " + "it is exercised on the real server by the wait streams of C06.")
 
-reg("C17", [eng_malformed, eng_names_pure, eng_codec_pure],
+reg("C17", [eng_malformed, eng_names_pure, eng_codec_pure, lambda ctx: eng_boundary_counts(ctx)],
     rule="malformed: per case a valid setup, then 3-8 requests each with one malformed field (names, ack ids, tokens, "
          "integers, push endpoints, inconsistent stream control messages with the bad element at a random position), STATS "
          "after each, then a health round trip and all listings. non-trivial = the health probe succeeded",
@@ -846,7 +924,7 @@ def eng_capacity_drain(ctx):
 reg("C01", [lambda ctx: eng_control_enum(ctx),
             eng_data_random(mon_c01, {"PUB"}, streams=True, tag="data-stream-drain", drain=True, always=True),
             eng_control_random(mon_c01, {"PUB"}, drain=True, always=True), eng_data_enum(M.mon_payload, {"PUB"}),
-            eng_capacity_drain, eng_expiry_load],
+            eng_capacity_drain, eng_expiry_load, lambda ctx: eng_abandon(ctx)],
     rule="random scripts with several subscriptions per topic, streams, nack/expiry cycles, deletions and re-creations of "
          "topic and subscription names, each followed by a drain (every lease left to run out, every stream read, every "
          "subscription pulled until an empty answer): mon_fanout reads off the implementation's answers that nothing "
@@ -1026,6 +1104,20 @@ def eng_wait_enum(ctx):
     return ctx.seq("wait-enum", cases, relevant=WAIT_OPS, triggers={"SR", "JOIN"}, monitor=M.mon_wait)
 
 
+def eng_mixed_modify_wake(ctx):
+    """One streaming control message that nacks some deliveries and extends others while consumers wait."""
+    cases = [(c, gen.with_drain(o)) for c, o in gen.mixed_modify_wake_cases()]
+    return ctx.seq("mixed-modify-wake", cases, relevant=WAIT_OPS, triggers={"SR", "JOIN"}, monitor=M.mon_wait,
+                   always_monitor=True)
+
+
+def eng_boundary_counts(ctx):
+    """Blocking Pulls and streams with boundary message counts on a subscription that has messages."""
+    cases = gen.boundary_count_cases()
+    return ctx.seq("boundary-counts", cases, relevant=WAIT_OPS | {"PULL", "STATS", "GT", "GS"}, triggers={"JOIN", "SR"},
+                   monitor=M.mon_count_hang, always_monitor=True)
+
+
 def cs_norm(ops, lines):
     """Lines of a held-handler case as compared between model and implementation: XQ / XD / STATS only; STATS
     without the topic field; once the subscription is deleted, which status a finishing handler reports is the
@@ -1173,7 +1265,7 @@ def eng_woken_dropped(ctx):
 
 
 reg("C06", [eng_wait_enum, eng_wait_random(M.mon_wait, {"SR", "JOIN"}), eng_cancel_woken, eng_woken_dropped, eng_cs,
-            eng_big_chain],
+            eng_big_chain, eng_mixed_modify_wake],
     rule="wait-enum: every combination of up to three waiting consumers (stream limit 1 / stream limit 10 / blocked "
          "Pull limit 1 / blocked Pull limit 5) x five sequences of availability events (publish 1/3/0, nack, expiry, "
          "ack), every consumer and STATS observed after each event; wait-random: random scripts with several "
@@ -1343,7 +1435,7 @@ reg("C16", [eng_abandon, eng_burst, lambda ctx: eng_create_delete_race(ctx), lam
                "(deltio_suspension_points_as_modelled), not proved semantically.",
     generated=[("lock-discipline", lockgate.lock_gate)])
 
-reg("C07", [eng_burst, eng_abandon, eng_pull_limit, eng_pushstress],
+reg("C07", [eng_burst, eng_abandon, eng_pull_limit, eng_pushstress, eng_deletestress],
     rule="burst: 17-70 calls (Get/Pull/Ack/List, one or two DeleteSubscription, one or two Publish, sometimes DeleteTopic) "
          "started without letting the runtime settle, seeded select!/scheduling order; after settling every call must "
          "have an answer and the server must still answer Get/Publish/Pull/List (mon_no_hang on every case; the harness "
